@@ -20,7 +20,7 @@ import (
 func init() {
 	vf.Register(&vf.Prop{
 		ID: "C04", Level: "exploration",
-		Rule: "constant expressions over 46 constant atoms (every untyped kind; values at/around every integer boundary, fractional, >64-bit, 1e39/1e309; typed constants) plus 44 typed boundary constants T(min|max|0|1) for the 11 integer types and float32/float64: " +
+		Rule: "constant expressions over 46 constant atoms (every untyped kind; values at/around every integer boundary, fractional, >64-bit, 1e39/1e309; typed constants) plus 14 negative constants and 44 typed boundary constants T(min|max|0|1) for the 11 integer types and float32/float64: " +
 			"all 6 unary and 19 binary operators on all atom pairs, conversions to 34 types, len/cap/min/max/complex/real/imag/unsafe.Sizeof/Alignof/Offsetof on constant and non-constant-but-sized operands, depth-2 nesting over a reduced alphabet; " +
 			"each built in `_ = e` and `const c = e`; oracle on the emitted text: builder carries a value <=> go/types' Info.Types[e].Value != nil, values compared exactly (constant.Compare), for the root and every sub-expression whose emitted shape matches; " +
 			"a constant expression go/types rejects (div by zero, overflow, shift) must not be accepted with a folded value. non-trivial = accepted by the builder and carrying a value on at least one side; distinct = distinct emitted text",
@@ -87,8 +87,18 @@ func reducedConsts() []*ex.E {
 	return out
 }
 
+// negative untyped constants (Go has no negative literals: -x is a unary expression)
+func negAtoms() []*ex.E {
+	var out []*ex.E
+	for _, s := range []string{"1", "7", "128", "129", "32769", "2147483649", "9223372036854775808", "9223372036854775809", "1267650600228229401496703205376"} {
+		out = append(out, ex.Un(token.SUB, lit(token.INT, s)))
+	}
+	out = append(out, ex.Un(token.SUB, lit(token.FLOAT, "0.5")), ex.Un(token.SUB, lit(token.FLOAT, "1.0")), ex.Un(token.SUB, lit(token.IMAG, "1i")), ex.Un(token.SUB, ex.Obj("CInt8Max")), ex.Un(token.SUB, ex.Obj("CF64")))
+	return out
+}
+
 func each(thorough bool, yield func(stage string, e *ex.E)) {
-	atoms := append(constAtoms(), boundaryConsts()...)
+	atoms := append(append(constAtoms(), boundaryConsts()...), negAtoms()...)
 	for _, op := range ex.UnOps {
 		for _, a := range atoms {
 			yield("unary", ex.Un(op, a))
@@ -149,12 +159,12 @@ func each(thorough bool, yield func(stage string, e *ex.E)) {
 		yield("unsafe", &ex.E{K: ex.KUnsafe, Name: "Offsetof", A: []*ex.E{ex.Sel(ex.Obj("VPS"), f)}})
 	}
 	// depth 2
-	ops := ex.BinOpReps
-	d2 := red
+	ops := append(append([]token.Token{}, ex.BinOpReps...), token.SHR, token.OR, token.MUL)
+	d2 := append(append([]*ex.E{}, red...), ex.Un(token.SUB, lit(token.INT, "1")), ex.Un(token.SUB, lit(token.INT, "129")))
 	if thorough {
 		ops = ex.BinOps
 	} else {
-		d2 = red[:12]
+		d2 = append(append([]*ex.E{}, red[:10]...), ex.Un(token.SUB, lit(token.INT, "1")), ex.Un(token.SUB, lit(token.INT, "129")))
 	}
 	var inner []*ex.E
 	for _, op := range ex.UnOps[:4] {
@@ -272,9 +282,11 @@ func judge(r *ex.Run) (out []finding) {
 		if e != r.E {
 			site = "sub:" + site
 		}
-		if isUntyped(rec.Type) && !isUntyped(tv.Type) {
-			// go/types records an untyped operand with the type (and rounded value) its context
-			// converts it to; that conversion is not part of this node's own value: not compared
+		if isUntyped(rec.Type) && !isUntyped(tv.Type) && isFloatish(tv.Type) {
+			// go/types records an untyped operand with the type its context converts it to and,
+			// for float/complex targets, the value ROUNDED to that type; that rounding is not
+			// part of this node's own value: not compared. (For integer targets conversion
+			// keeps the exact value, so those are compared.)
 			return
 		}
 		bC, gC := rec.CVal != nil, tv.Value != nil
@@ -391,4 +403,9 @@ var _ = fixture.New
 func isUntyped(t types.Type) bool {
 	b, ok := t.(*types.Basic)
 	return ok && b.Info()&types.IsUntyped != 0
+}
+
+func isFloatish(t types.Type) bool {
+	b, ok := t.Underlying().(*types.Basic)
+	return ok && b.Info()&(types.IsFloat|types.IsComplex) != 0
 }
